@@ -93,6 +93,14 @@ def glue(tokens_a, op, tokens_b, bound):
     return "A"
 
 
+def longest_prefix(run, bound):
+    """number of tokens of the longest prefix of the run whose normal form is bound (0 = none)"""
+    for n in range(len(run), 0, -1):
+        if run[n - 1] not in SYMS and nf(run[:n]) in bound:
+            return n
+    return 0
+
+
 class T:
     """template builder: produces text, reference AST and labels"""
 
@@ -301,11 +309,11 @@ def gen_case(src):
         tb.bound.add(nf(key))     # entry names of bound lists of contexts are known to the parsing scope
         (t1, n1) = tb.name(tb.pick())
         vals = [src.int(1, 120) for _ in range(4)]
-        extra_bind.append([nf(lname), {"l": [{"c": [[nf(key), {"n": str(v)}], ["zz id", {"n": str(i)}]]} for i, v in enumerate(vals)]}])
+        extra_bind.append([nf(lname), {"l": [{"c": [[nf(key), {"n": str(v)}], ["idx9", {"n": str(i)}]]} for i, v in enumerate(vals)]}])
         op = src.choice([">", "<", ">=", "<="])
-        text = "%s[%s %s %s].zz id" % (spell(src, lname), spell(src, key), op, t1)
-        items = ["list", [["ctx", [[nf(key), ["num", str(v)]], ["zz id", ["num", str(i)]]]] for i, v in enumerate(vals)]]
-        node = ["path", ["filter", items, ["cmp", op, ["name", nf(key)], n1]], "zz id"]
+        text = "%s[%s %s %s].idx9" % (spell(src, lname), spell(src, key), op, t1)
+        items = ["list", [["ctx", [[nf(key), ["num", str(v)]], ["idx9", ["num", str(i)]]]] for i, v in enumerate(vals)]]
+        node = ["path", ["filter", items, ["cmp", op, ["name", nf(key)], n1]], "idx9"]
         tb.labels.append("filter-predicate-entry-name")
         thr = values[n1[1]]
         hits = sum(1 for v in vals if {">": v > thr, "<": v < thr, ">=": v >= thr, "<=": v <= thr}[op])
@@ -319,8 +327,22 @@ def gen_case(src):
         tb.bound.add(nf(cname))
         p1 = PRIMES[len(names) + 1]
         (t1, n1) = tb.name(tb.pick())
+        # entry names of bound contexts are known to the parsing scope like bound names
+        tb.bound.add(nf(key))
+        g = glue(cname, ".", key, tb.bound)
+        if g != "A" and g != "ALL":
+            tb.labels.append("partial-glue")
+            tb.partial = True
+        if longest_prefix(key, tb.bound) != len(key):
+            tb.labels.append("partial-glue")
+            tb.partial = True
         if kind == "path-chain":
             key2 = tb.local(extra={nf(cname), nf(key)})
+            tb.bound.add(nf(key2))
+            # after each dot the longest bound name is chosen again: `key.key2` (or a prefix of it) may itself be a bound name
+            if g != "A" or longest_prefix(key + ["."] + key2, tb.bound) != len(key) or longest_prefix(key2, tb.bound) != len(key2):
+                tb.labels.append("partial-glue")
+                tb.partial = True
             extra_bind.append([nf(cname), {"c": [[nf(key), {"c": [[nf(key2), {"n": str(p1)}]]}]]}])
             text = "%s.%s.%s" % (spell(src, cname), spell(src, key), spell(src, key2))
             node = ["path", ["path", ["ctx", [[nf(key), ["ctx", [[nf(key2), ["num", str(p1)]]]]]]], nf(key)], nf(key2)]
@@ -409,7 +431,7 @@ def setup(ctx):
 
 
 def run(ctx):
-    ctx.forall(ctx.p, ctx.scale(40000, 1200000))
+    ctx.forall(ctx.p, ctx.scale(160000, 3000000))
 
 
 if __name__ == "__main__":
